@@ -30,6 +30,7 @@ func within(inner, outer posRange) bool {
 var codeConstruct = map[string]string{
 	"receiver-return-values-invalid-signature": "results",
 	"receiver-return-value-is-not-an-error":    "results",
+	"receiver-missing-security":                "results",
 	"linker-unreferenced-parameter":            "param",
 	"receiver-parameter-not-primitive":         "param",
 	"receiver-invalid-body":                    "param",
@@ -243,7 +244,7 @@ func checkDiagnostics(res *report.Result, pc *PertCase) {
 
 func c18(c *orch.Ctx) (*report.Result, error) {
 	res := &report.Result{Property: "C18"}
-	ids := []string{"P1", "P4", "P5", "P6", "P7", "P8q", "P8h", "P8b", "P8f", "P9", "P10", "P11s", "P11m", "P11t", "P12", "P13a", "P13b", "P14a", "P14b", "P15", "P16", "P17", "P18", "P20", "P21", "P2", "P3b", "P3c", "P22", "P22d", "P15d", "P16d", "P18d", "P6d", "PX1", "PX2", "PX3", "PX4", "PX5"}
+	ids := []string{"P1", "P4", "P5", "P6", "P7", "P8q", "P8h", "P8b", "P8f", "P9", "P10", "P11s", "P11m", "P11t", "P12", "P13a", "P13b", "P14a", "P14b", "P15", "P16", "P17", "P18", "P20", "P21", "P2", "P3b", "P3c", "P22", "P22d", "P15d", "P16d", "P18d", "P6d", "PX1", "PX2", "PX3", "PX4", "PX5", "PM1", "PS1", "PS2", "PS3", "PE1"}
 	n := 4 * len(ids)
 	if !c.Quick() {
 		n = 40 * len(ids)
